@@ -108,7 +108,7 @@ def parseRows (s : String) : Option (List TruthRow) :=
 /-- the model's prediction of what the implementation selects: parse the rendered string, evaluate the tree -/
 def modelBits (O : Oracle) (c : Corpus) (s : B) : String :=
   match parse O s with
-  | .ok q => if keysPresent c q then showPred c (evalQ c q) else "?" ++ canon q
+  | .ok q => if keysPresent c q then showPred c (evalQ c q) ++ " T=" ++ canon q else "?" ++ canon q
   | .err _ => "err"
   | .panic st => "panic:" ++ st
   | .diverge => "diverge"
@@ -130,15 +130,23 @@ def handle (line : String) : String :=
       let m2 := modelBits (mkOracle tbl true) c s
       if m1 != m2 then badCase "oracle table lacks a key the model consulted" else
       let O := mkOracle tbl false
+      -- the implementation's answer is `<selected documents> T=<canonical parsed tree>` (or `err`); the tree takes
+      -- part in the correspondence only, the property (checkP) is about the documents
+      let implDocs := match impl.splitOn " T=" with
+        | d :: _ => d
+        | [] => impl
+      let m1Docs := match m1.splitOn " T=" with
+        | d :: _ => d
+        | [] => m1
       let implBits : Option (Option (List Bool)) :=
-        if impl == "err" then some none else (bits? impl).map some
+        if implDocs == "err" then some none else (bits? implDocs).map some
       -- the tree the theorems of Props/C06 are about (`abstractParse g`): reported when it selects other documents
       -- than the model's parse of the rendered string (the tokenizer did not read render(g) as g)
       let abs := match abstractParse O g with
         | .ok q => showPred c (evalQ c q)
         | .err _ => "err"
         | _ => "crash"
-      let note := if abs == m1 then "" else " abstract=" ++ abs
+      let note := if abs == m1Docs then "" else " abstract=" ++ abs
       match implBits with
       | none => specFail m1 ("impl:" ++ impl)
       | some ib =>
